@@ -883,22 +883,30 @@ impl PaZipCompressor {
     fn calculate_global_match_cost(&self, global_match: crate::compression::dict_zip::matcher::Match) -> Result<Option<(CompressionStrategy, CostAnalysis)>> {
         // Global matches always use Global compression type
         let compression_type = CompressionType::Global;
+
+        // The legacy stream stores a global match as [1][offset: u16][length: u16]
+        // (apply_compression_strategy / decompress_match).  A dictionary position that does
+        // not fit cannot be referenced at all; a longer match is emitted in pieces.
+        if global_match.dict_position > u16::MAX as usize {
+            return Ok(None);
+        }
+        let match_length = global_match.length.min(u16::MAX as usize);
         
         // Create match for encoding cost calculation
         let temp_match = Match::Global {
             dict_position: global_match.dict_position as u32,
-            length: global_match.length as u16,
+            length: match_length as u16,
         };
         
         let encoding_cost = calculate_encoding_cost(&temp_match);
         let access_cost = self.config.global_access_cost;
         let total_cost = encoding_cost as u32 + access_cost;
         
-        let net_benefit = global_match.length as i32 * 8 - total_cost as i32;
+        let net_benefit = match_length as i32 * 8 - total_cost as i32;
         
         let strategy = CompressionStrategy::Global {
             dict_offset: global_match.dict_position as u32,
-            length: global_match.length as u32,
+            length: match_length as u32,
             match_type: compression_type,
         };
         
@@ -907,9 +915,9 @@ impl PaZipCompressor {
             encoding_cost: encoding_cost as u32,
             access_cost,
             total_cost,
-            match_length: global_match.length as u32,
-            efficiency: if global_match.length > 0 {
-                (global_match.length as f64 * 8.0 - total_cost as f64) / (global_match.length as f64 * 8.0)
+            match_length: match_length as u32,
+            efficiency: if match_length > 0 {
+                (match_length as f64 * 8.0 - total_cost as f64) / (match_length as f64 * 8.0)
             } else {
                 0.0
             },
